@@ -407,11 +407,11 @@ class Inliner:
             call, kind = st.value, "assign"
         elif isinstance(st, ast.Return) and isinstance(st.value, ast.Call):
             call, kind = st.value, "return"
-        if call is None:
-            return None
         ctor = self._expand_ctor(fi, st, depth)
         if ctor is not None:
             return ctor
+        if call is None:
+            return None
         callee, recv_self = self._target(fi, call)
         if callee is None:
             return None
